@@ -126,6 +126,22 @@ def quantifier_form(fx, rep, p, slf):
     if sy.loop_order or len(res) != 1 or res[0][0].conds or res[0][0].effects:
         return False
     v = res[0][1][1]
+    if v[0] == "is" and v[2] == "Some" and v[1][0] in ("call", "mcall") and v[1][1].endswith("Iterator::find_map") and len(v[1][2]) == 2 \
+            and v[1][2][1][0] in ("closure", "fnref"):
+        # `iter().find_map(f).is_some()` is `iter().any(|x| f(x).is_some())`
+        try:
+            cps = sy.apply(v[1][2][1], [("bound", 0)], S.St(), {"sp": "?"})
+        except S.Undecidable:
+            return False
+        cases = []
+        for st_, (k_, v_) in cps:
+            if v_[0] == "adt" and v_[1] == "Option":
+                cases.append((tuple(st_.conds), tuple(st_.effects), TRUE if v_[2] == "Some" else FALSE))
+            else:
+                at_ = ("is", v_, "Some")
+                cases.append((tuple(st_.conds) + ((at_, True),), tuple(st_.effects), TRUE))
+                cases.append((tuple(st_.conds) + ((at_, False),), tuple(st_.effects), FALSE))
+        v = ("quant", "any", v[1][2][0], ("cases", tuple(cases)))
     if not (v[0] == "quant" and v[1] == "any"):
         return False
     rep.fn(p)
